@@ -306,6 +306,18 @@ def run_cases(ctx, what, impl, cases, proto_driver=None, nontrivial=None, extra_
             ctx.cov['model_actions_checked'] = ctx.cov.get('model_actions_checked', 0) + nact
             ctx.cov['disagreements'] = ctx.cov.get('disagreements', 0) + nrej
 
+def auto_resize_bound_cases(ctx):
+    """CDS_LFHT_AUTO_RESIZE tables with a small maximum, one user thread (thread 0) and the library's work-queue thread (thread 1) scheduled between its
+    operations: enough nodes with distinct hashes pile up in one bucket of a table that already has max_nr_buckets buckets for the chain-length trigger to ask
+    for more; the table must stay within its maximum, with every allocator (order: silent oversize; chunk / mmap: the allocator is dimensioned for the maximum)"""
+    cases = []
+    progs = ('A0A3A8A9A5A1T', 'U0U3U8U9U5L0XA1A2A7T', 'A3A9A8R0L3XA5A1C')
+    for cf in (('1', '2', 'o', '0', '0', '1'), ('1', '2', 'c', '0', '0', '1'), ('1', '2', 'm', '0', '0', '1'), ('2', '4', 'o', '0', '0', '1'), ('1', '4', 'm', '0', '0', '1')):
+        for prog in progs:
+            for j in ((0, 40, 200) if ctx.quick() else (0, 5, 10, 20, 40, 80, 120, 200)):
+                cases.append((prog, ('>0' + '1b' * j) * 14, cf))
+    return cases
+
 def replay(ctx, rp):
     f = rp.get('failing_input') or {}
     impl = build(ctx)
